@@ -162,7 +162,7 @@ fn parent(id: &str, tier: &str) {
     }
     let distinct = rep.outcomes.len();
     let wall = t0.elapsed().as_secs_f64();
-    let states = rep.shapes.len() as u64;
+    let states = (rep.shapes.len() as u64).max(rep.extra.get("states").copied().unwrap_or(0));
     let evidence = json!({
         "property_id": id,
         "tier": tier,
@@ -189,7 +189,10 @@ fn parent(id: &str, tier: &str) {
             "known_findings_seen": known_seen,
             "notes": rep.notes,
             "workers": n,
-            "sampled_parts": Value::Null,
+            "sampled_parts": match rep.extra.get("sampled_nodes") {
+                Some(n) => json!(format!("{n} interior nodes of trees with 2^13..2^24 leaves were drawn with VERIF_SEED; that part is sampling and is not part of the exhaustive coverage statement")),
+                None => Value::Null,
+            },
         }
     });
     std::fs::create_dir_all(format!("{root}/evidence")).ok();
